@@ -30,6 +30,7 @@ func init() {
 		ruleR04f(c)
 		ruleFoldExaminesAll(c, "R04g")
 		ruleInMemoryIdentityLookups(c, "R04h")
+		ruleLastElementOfSameSlice(c, "R04i")
 	})
 }
 
